@@ -1,8 +1,10 @@
 package h
 
 import (
+	"bytes"
 	"context"
 	"encoding/binary"
+	"errors"
 	"fmt"
 	"time"
 
@@ -61,9 +63,18 @@ type Call struct {
 	CancelledStep int // step at which the harness cancelled the ctx (0 = never)
 	CancelledAt   time.Duration
 	// C02 bookkeeping
+	Delivered   []DeliveredReply // replies the server put on the wire while the call was outstanding and live
 	Timely      []uint32 // nonces of replies consumed while the call was outstanding and live
 	TimelyStep  int
 	TimelyAt    time.Duration
+}
+
+// DeliveredReply is a reply that reached the client's receive buffer.
+type DeliveredReply struct {
+	Nonce uint32
+	Conn  int
+	At    time.Duration
+	Step  int
 }
 
 // W1 holds the world of a transport run.
@@ -78,6 +89,7 @@ type W1 struct {
 	// Outstanding[conn][wireID] = call index of a query received and not yet answered.
 	Outstanding map[int]map[uint16]int
 	CheckDupWid bool
+	CheckFrames bool
 	// DoQDialFault is applied to the (fake) QUIC connection dial.
 	DoQDialFault func(ctx context.Context, nth int) error
 	MaxOutstanding map[int]int // per conn: maximum number of unanswered queries seen
@@ -194,6 +206,7 @@ type Action struct {
 	SilentKillAfter bool // the server vanishes right after the reply (client learns on next write)
 	CloseBefore bool // close instead of replying
 	Garbage   bool // send a short/garbage frame instead
+	Runt      bool // datagram only: send a runt (<12 bytes) datagram before the reply
 	HoldUntil chan struct{} // reply only after this channel is closed
 }
 
@@ -201,8 +214,14 @@ type Action struct {
 func (w *W1) Serve(opts ServerOpts) func(sc *simnet.Conn) {
 	return func(sc *simnet.Conn) {
 		nth := 0
+		if w.CheckFrames {
+			sc.MaxFrame = 1024 // no query of these workloads is anywhere near that long
+		}
 		for {
 			q, err := sc.ReadMsg()
+			if err != nil && errors.Is(err, simnet.ErrFrameTooLarge) {
+				w.rc.Fail("query_frame_corrupt", "conn %d: server received a frame header that is no query's: %v", sc.ID, err)
+			}
 			if err != nil {
 				if !sc.IsClosed() {
 					sc.Close()
@@ -214,6 +233,15 @@ func (w *W1) Serve(opts ServerOpts) func(sc *simnet.Conn) {
 			var call *Call
 			if ok {
 				call = w.byName[name]
+			}
+			if w.CheckFrames {
+				// independent framer on the server side: every frame must be exactly
+				// one known query (the wire ID may differ from the caller's)
+				if call == nil {
+					w.rc.Fail("query_frame_corrupt", "conn %d: server received a %d-byte frame that is not a query of any call: % x", sc.ID, len(q), q[:min(len(q), 48)])
+				} else if len(q) != len(call.Query) || !bytes.Equal(q[2:], call.Query[2:]) {
+					w.rc.Fail("query_frame_corrupt", "conn %d: frame for call %d differs from its query (%d vs %d bytes)", sc.ID, call.Idx, len(q), len(call.Query))
+				}
 			}
 			txi := -1
 			if call != nil {
@@ -252,6 +280,10 @@ func (w *W1) Serve(opts ServerOpts) func(sc *simnet.Conn) {
 						sc.WriteRaw([]byte{1, 2, 3})
 					}
 					return
+				}
+				if act.Runt && !sc.Stream {
+					simrt.Fault("srv_runt_datagram")
+					sc.WriteRaw(make([]byte, simrt.Choose(12)))
 				}
 				if act.Stray {
 					simrt.Fault("srv_stray")
@@ -347,6 +379,9 @@ func (w *W1) Exchange(u upstream.Upstream, c *Call) {
 	c.EndStep, c.EndAt = simrt.S.Steps(), simrt.S.Elapsed()
 	c.Done = true
 	c.Err = err
+	if err == nil && r == nil {
+		w.rc.Fail("nil_reply_without_error", "call %d (%s): ExchangeContext returned neither a reply nor an error", c.Idx, c.QName)
+	}
 	if err == nil && r != nil {
 		c.Resp = append([]byte(nil), (*r)...)
 		if w.rc.Released(r) {
